@@ -1,19 +1,23 @@
 #!/bin/bash
-# Evaluate seeded changes produced by the mutation agents (rounds 1 and 2), one at a time, until work/mutres/STOP exists.
+# Evaluate seeded changes produced by the mutation agents, one at a time, until work/mutres/STOP exists.
+# usage: tools/mutqueue.sh <worker-tag> <property ids...>   (each worker uses its own scratch copy of /verif)
 cd /verif
+tag=$1; shift
+mkdir -p work/mutres
 while [ ! -e work/mutres/STOP ]; do
   found=0
-  for d in /tmp/mut_C*/out/m* /tmp/mut2_C*/out/m*; do
+  for pid in "$@"; do
+   for d in /tmp/mut_$pid/out/m* /tmp/mut2_$pid/out/m*; do
     [ -f "$d/patch.diff" ] && [ -f "$d/demo.py" ] && [ -f "$d/notes.json" ] || continue
-    pid=$(echo "$d" | sed 's|/tmp/mut2\?_\(C[0-9]*\)/out/.*|\1|')
     mk=$(basename "$d")
     case "$d" in /tmp/mut2_*) mk="r2$mk";; esac
     out="work/mutres/${pid}_${mk}.json"
     [ -e "$out" ] && continue
     [ -e work/mutres/STOP ] && break
     found=1
-    /venv/bin/python tools/evalmut.py "$pid" "$d/patch.diff" "$d/demo.py" > "$out.tmp" 2> "work/mutres/${pid}_${mk}.err"
+    /venv/bin/python tools/evalmut.py "$pid" "$d/patch.diff" "$d/demo.py" --verif-copy /tmp/verif_mut_$tag > "$out.tmp" 2> "work/mutres/${pid}_${mk}.err"
     mv "$out.tmp" "$out"
+   done
   done
   [ $found = 0 ] && sleep 30
 done
